@@ -1,7 +1,6 @@
 package task
 
 import (
-	"context"
 	"io"
 	"os"
 	"path/filepath"
@@ -69,13 +68,19 @@ type (
 		concurrencySemaphore chan struct{}
 		taskCallCount        map[string]*int32
 		mkdirMutexMap        map[string]*sync.Mutex
-		executionHashes      map[string]context.Context
+		executionHashes      map[string]*execution
 		executionHashesMutex sync.Mutex
 		watchedDirs          *xsync.MapOf[string, bool]
 	}
 	TempDir struct {
 		Remote      string
 		Fingerprint string
+	}
+	// execution is the shared state of a deduplicated task execution. done is
+	// closed once the execution has finished and err holds its outcome.
+	execution struct {
+		done chan struct{}
+		err  error
 	}
 )
 
@@ -97,7 +102,7 @@ func NewExecutor(opts ...ExecutorOption) *Executor {
 		concurrencySemaphore: nil,
 		taskCallCount:        map[string]*int32{},
 		mkdirMutexMap:        map[string]*sync.Mutex{},
-		executionHashes:      map[string]context.Context{},
+		executionHashes:      map[string]*execution{},
 		executionHashesMutex: sync.Mutex{},
 	}
 	e.Options(opts...)
